@@ -56,6 +56,12 @@ SYSTEMATIC = [
     S(('aarr', S(sc('short'), sc('char')), 3), sc('float')), S(sc('int'), ('agg', S(arr('float', 2), sc('int')))),
     S(('agg', S(('agg', S(arr('double', 1))), sc('float'))), sc('int')), S(sc('char'), ('agg', S(arr('char', 3))), arr('float', 2)),
     S(('agg', S(sc('long'))), ('agg', S(arr('float', 2)))), S(('aarr', S(arr('float', 2)), 2)), S(('aarr', S(sc('int'), sc('float')), 2)),
+    # aggregates inside aggregates inside aggregates, the inner ones away from offset 0 and across the eightbyte boundary
+    S(sc('long'), ('agg', S(('agg', S(sc('float'), sc('float')))))), S(sc('double'), ('agg', S(sc('int'), ('agg', S(sc('float')))))),
+    S(sc('int'), ('agg', S(sc('float'), ('agg', S(arr('float', 2)))))), S(sc('float'), ('agg', S(('aarr', S(sc('float')), 2), sc('int')))),
+    S(('aarr', S(('agg', S(sc('float'))), sc('char')), 2)), S(sc('char'), ('agg', S(('agg', S(sc('double')))))),
+    S(('agg', S(sc('int'), ('agg', S(sc('int'))))), ('agg', S(('agg', S(arr('float', 2)))))), S(sc('double'), ('agg', U(0, ('agg', S(arr('float', 2))), sc('long')))),
+    S(sc('long'), ('aarr', S(('agg', S(sc('float')))), 2)), S(arr('float', 2), ('agg', S(('agg', S(sc('int'), sc('float')))))),
     # unions: an eightbyte is INTEGER as soon as one member puts an integer there
     U(0, sc('double'), sc('long')), U(0, arr('float', 4), sc('int')), U(1, sc('long'), arr('double', 2)), U(0, arr('float', 4), arr('double', 2)),
     U(0, arr('float', 3), ('agg', S(sc('double'), sc('int')))), S(('agg', U(0, sc('float'), sc('int'))), sc('float'), sc('double')),
@@ -334,7 +340,7 @@ def render(unit, only=None):
         # the c2m-side callback: gcc code calls it with the aggregate and gets an aggregate back
         main.append('S%d cbf_%d (%s) {\n  u64 h = sum%d (&s);\n%s  fill%d (&s, (int) (h %% 997u));\n  return s;\n}'
                     % (k, k, params(pre, post, k), k, scal_mix(pre, post), k))
-    main.append('int main (void) {')
+    main.append('int main (void) {\n  setvbuf (stdout, 0, _IONBF, 0);    /* a run that dies is charged to the call it died in */')
     for k in idx:
         shape, pre, post, va = unit[k]
         main.append('  for (int seed = 1; seed <= 2; seed++) {')
